@@ -59,7 +59,7 @@ func vfC17Gen(rt *rapid.T) vfC17Case {
 			return vfLOp{Op: "race_open", G: rapid.IntRange(2, 8).Draw(rt, "g")}
 		case w < 98:
 			if rapid.Bool().Draw(rt, "close_vs_open") {
-				return vfLOp{Op: "race_close_open", Slot: -1, G: rapid.IntRange(1, 7).Draw(rt, "g")}
+				return vfLOp{Op: "race_close_open", Slot: -1, G: rapid.IntRange(1, 7).Draw(rt, "g"), Method: rapid.SampledFrom([]string{"", "late_writers", "late_writers"}).Draw(rt, "late_writers")}
 			}
 			return vfLOp{Op: "race_close", Slot: -1, G: rapid.IntRange(2, 8).Draw(rt, "g")}
 		default:
@@ -501,6 +501,27 @@ func vfC17Run(c vfC17Case, ctx *vfCtx) *vfViolation {
 				closeDone <- st.Close()
 			}()
 			var stop atomic.Bool
+			// late writers: goroutines that keep calling Add / Flush on the handle that is being closed.
+			// Whatever they do must be over (or refused) before the directory changes hands.
+			var writers sync.WaitGroup
+			var stopWriters atomic.Bool
+			if op.Method == "late_writers" {
+				for w := 0; w < 3; w++ {
+					writers.Add(1)
+					go func(w int) {
+						defer writers.Done()
+						defer func() { recover() }()
+						<-start
+						for j := 0; j < 400 && !stopWriters.Load(); j++ {
+							if w > 0 {
+								st.Add([]float32{float32(counter), float32(1000 + j)}, fmt.Sprintf("late%d_%d common", w, j), map[string]interface{}{"n": j})
+							}
+							st.Flush()
+						}
+					}(w)
+				}
+				ctx.Class("race_close_vs_open_with_late_writers")
+			}
 			for g := 0; g < op.G; g++ {
 				wg.Add(1)
 				go func() {
@@ -525,6 +546,9 @@ func vfC17Run(c vfC17Case, ctx *vfCtx) *vfViolation {
 			if cerr != nil {
 				return vfFail("op %d: Close racing with opens failed: %v", i, cerr)
 			}
+			// calls on the old handle that began after its Close returned are refused; wait for the rest
+			writers.Wait()
+			stopWriters.Store(true)
 			n := 0
 			for e := range entered {
 				n++
